@@ -168,14 +168,15 @@ def cube_queries(prefix, kinds, cks, timeout, mem, a=16, **kw):
     return qs
 
 
-def gen_queries(prefix, kinds, cks, timeout, mem=6, a=16):
+def gen_queries(prefix, kinds, cks, timeout, mem=None, a=16):
     """per-generator harnesses (reached through the hook verif_add_legals)"""
     qs = []
     for k in kinds:
         for c in cks:
             if c == 2 and k != "king":
                 continue  # in double check the dispatcher calls the king generator only (c16_dispatch)
-            qs.append(Query("brd::%s_%s_c%d" % (prefix, k, c), stubbing=True, rules=board_rules(a), default_unwind=2, timeout=timeout, mem_gb=mem))
+            m = mem or (12 if k in ("king", "pawn") else 7)
+            qs.append(Query("brd::%s_%s_c%d" % (prefix, k, c), stubbing=True, rules=board_rules(a), default_unwind=2, timeout=timeout, mem_gb=m))
     return qs
 
 
@@ -452,10 +453,13 @@ def plan_c06(res, tier, seed, only):
     cap = 900 if tier == "quick" else 3000
     mk = lambda nme, mem=8, **kw: Query("c06::" + nme, stubbing=kw.pop("stubbing", False), rules=c06_rules(a, 4), default_unwind=2, timeout=cap, mem_gb=mem, **kw)
     qs = [mk("c06_v_board_a%d" % a), mk("c06_v_fresh_w_a%d" % a), mk("c06_v_fresh_b_a%d" % a), mk("c06_v_ckpin_a%d" % a), mk("c06_v_castle"), mk("c06_v_ep"), mk("c06_v_clocks"),
-          mk("c06_startpos"), mk("c09_build_seq", mem=14, stubbing=True), mk("c06_accessors_setters"),
+          mk("c06_startpos"), mk("c09_build_seq_r%s" % ["1458", "2367"][seed % 2], mem=8, stubbing=True), mk("c06_accessors_setters"),
           mk("c06_set_half_panics", should_panic=True), mk("c06_set_full_panics", should_panic=True)]
     if tier == "thorough":
-        qs += [mk("c06_v_board_a16"), mk("c06_v_fresh_w_a16"), mk("c06_v_fresh_b_a16"), mk("c06_v_ckpin_a16")]
+        qs += [mk("c06_v_board_a16"), mk("c06_v_fresh_w_a16"), mk("c06_v_fresh_b_a16"), mk("c06_v_ckpin_a16"),
+               mk("c09_build_seq", mem=16, stubbing=True), mk("c09_build_seq_r%s" % ["2367", "1458"][seed % 2], mem=8, stubbing=True)]
+    else:
+        res.notrun.append("build() on the fully symbolic 64-cell builder (quick runs the variant with pieces confined to four ranks: 1,4,5,8 or 2,3,6,7 by VERIF_SEED): thorough tier")
     engine.run_plan(res, filt(qs, only), workers=10)
     return RULE
 
@@ -470,13 +474,16 @@ def plan_c09(res, tier, seed, only):
     res.assumptions = ["validators stubbed by the reference predicates in the sequencing harness (discharged by C06's per-validator harnesses)"]
     oracle_validation(res)
     cap = 900 if tier == "quick" else 3000
-    qs = [Query("c06::c09_build_seq", stubbing=True, rules=c06_rules(a, n), default_unwind=2, timeout=cap, mem_gb=14),
+    rk = ["1458", "2367"]
+    qs = [Query("c06::c09_build_seq_r%s" % rk[seed % 2], stubbing=True, rules=c06_rules(a, n), default_unwind=2, timeout=cap, mem_gb=8),
           Query("c06::c09_from_board_n%d" % n, stubbing=True, rules=c06_rules(a, n), default_unwind=2, timeout=cap, mem_gb=10),
           H("c08", "c08_castle_shredder", timeout=cap, mem_gb=8), H("c08", "c08_ep", timeout=cap, mem_gb=8), H("c08", "c08_side", timeout=cap, mem_gb=8)]
     if tier == "thorough":
         qs.append(Query("c06::c09_build_seq_hash", stubbing=True, rules=c06_rules(a, n), default_unwind=2, timeout=cap, mem_gb=20))
+        qs.append(Query("c06::c09_build_seq", stubbing=True, rules=c06_rules(a, n), default_unwind=2, timeout=cap, mem_gb=16))
+        qs.append(Query("c06::c09_build_seq_r%s" % rk[(seed + 1) % 2], stubbing=True, rules=c06_rules(a, n), default_unwind=2, timeout=cap, mem_gb=8))
     else:
-        res.notrun.append("c09_build_seq_hash (hash of the built board == XOR of feature keys): thorough tier")
+        res.notrun.append("build() on the fully symbolic 64-cell builder and the hash of the built board: thorough tier (quick: pieces confined to four ranks, rotating with VERIF_SEED)")
     engine.run_plan(res, filt(qs, only), workers=5)
     return RULE
 
